@@ -95,7 +95,17 @@ def write_replay(pid: str, v: Violation) -> str:
 
 
 def _replay_fps(mod, payload) -> list:
-    return sorted({v.fingerprint for v in mod.replay(payload)})
+    try:
+        return sorted({v.fingerprint for v in mod.replay(payload)})
+    except Exception as e:
+        # the same rule as during the exploration: an exception raised from inside the library while the oracle handles an object the
+        # library accepted is an observation about the library (it reproduces the LIB finding), not a broken replay
+        from mc.gridx import raised_in_library
+
+        lib = raised_in_library(e)
+        if lib:
+            return [f"LIB:raised-inside-the-oracle:{type(e).__name__}:{lib}"]
+        raise
 
 
 def run_replay(pid: str, mod, path: str) -> int:
